@@ -83,7 +83,8 @@ DESIGN = {
     "backup": (["backup_small"], ["backup"], {"backup_snapfirst": "SnapshotIndexed", "backup_idxfirst": "IndexSound",
                                              "backup_readerfirst": "ReaderOK"}),
     "prune": (["prune_small"], ["prune"], {"prune_delfirst": "IndexSound", "prune_dropidx": "SnapshotIndexed"}),
-    "tag": (["tag"], ["tag"], {"tag_removefirst": "TagNeverLoses"}),
+    "tag": (["tag", "rewrite"], ["tag", "rewrite"], {"tag_removefirst": "TagNeverLoses",
+                                                      "rewrite_removefirst": "RewriteNeverLoses"}),
 }
 
 
